@@ -351,23 +351,46 @@ def run(ctx):
         """('min'|'max', element text with the loop variable written v, population text) of PICK(<comprehension over the members>)"""
         if not (isinstance(e, ast.Call) and isinstance(e.func, ast.Name) and e.func.id in ("min", "max") and len(e.args) == 1 and not e.keywords):
             return None
+        import copy as _copy
+
+        from sa.desugar import _FuseGen
+
         c = e.args[0]
         for _ in range(4):
             if isinstance(c, ast.Name) and c.id in cval:
                 c = cval[c.id]
-        if not (isinstance(c, (ast.ListComp, ast.GeneratorExp)) and len(c.generators) == 1 and not c.generators[0].ifs
-                and isinstance(c.generators[0].target, ast.Name)):
+        # a population collected first (`boxes = [(m.x, m.y, ...) for m in members if ...]`) and aggregated afterwards reads as one
+        # comprehension over the members
+        if isinstance(c, (ast.ListComp, ast.GeneratorExp)) and len(c.generators) == 1:
+            it_ = c.generators[0].iter
+            for _ in range(4):
+                if isinstance(it_, ast.Name) and it_.id in cval and isinstance(cval[it_.id], (ast.ListComp, ast.GeneratorExp)):
+                    it_ = cval[it_.id]
+            if it_ is not c.generators[0].iter:
+                c = _copy.deepcopy(c)
+                c.generators[0].iter = _copy.deepcopy(it_)
+                c = _FuseGen().visit(ast.GeneratorExp(elt=c.elt, generators=c.generators))
+        if not (isinstance(c, (ast.ListComp, ast.GeneratorExp)) and len(c.generators) == 1 and isinstance(c.generators[0].target, ast.Name)):
             return None
         v = c.generators[0].target.id
+        for cond in c.generators[0].ifs:
+            for a_ in P_.atoms(cond, True):
+                if a_[0] == "none" and a_[2] is False and a_[1] in {"%s.%s" % (v, f_) for f_ in ("x", "y", "cx", "cy")}:
+                    continue   # a member without a box has nothing to contribute
+                if a_[0] in ("truthy", "cmp") and any(("%s.%s" % (v, f_)) in repr(a_) for f_ in ("x", "y", "cx", "cy")):
+                    filtered.append("members are left out of the bounding box by `%s`: a member with a zero coordinate or extent (a "
+                                    "straight connector, an empty group) still belongs to it" % ast.unparse(cond))
+                    continue
+                return None
 
         class Rn(ast.NodeTransformer):
             def visit_Name(self, x):
                 return ast.Name(id="v", ctx=x.ctx) if x.id == v else x
-        import copy as _copy
-
         elt = ast.unparse(Rn().visit(_copy.deepcopy(c.elt)))
         pop = P_.full(c.generators[0].iter, cval)
         return e.func.id, elt, pop
+
+    filtered = []
 
     def canon_comp(e):
         e = ast.parse(P_.full(e, {k: v for k, v in cval.items() if not isinstance(v, (ast.ListComp, ast.GeneratorExp))}), mode="eval").body
@@ -410,7 +433,10 @@ def run(ctx):
                 unk.append("%s = `%s`" % ("x y cx cy".split()[i], ast.unparse(c)[:60]))
             elif not m_:
                 bad.append("%s is `%s`" % ("x y cx cy".split()[i], P_.full(c, {k: v for k, v in cval.items() if not isinstance(v, (ast.ListComp, ast.GeneratorExp))})[:90]))
-        if bad:
+        if filtered:
+            ctx.violation("R17.2", "CT_GroupShape._child_extents", sorted(set(filtered))[0], file=ge.file,
+                          line=n_.lineno if hasattr(n_, "lineno") else ce.line)
+        elif bad:
             ctx.violation("R17.2", "CT_GroupShape._child_extents", "child extents are not the bounding box (min x, min y, max right - min x, max bottom - min y) "
                           "over all member shapes: %s" % "; ".join(bad), file=ge.file, line=n_.lineno if hasattr(n_, "lineno") else ce.line)
         elif unk:
